@@ -18,6 +18,7 @@ import BufrModel.Drv.CompilerOp
 import BufrModel.Drv.TableDefOp
 import BufrModel.Drv.FlatOp
 import BufrModel.Drv.LinksOp
+import BufrModel.Drv.ViewOp
 open Lean Bufr.Drv
 
 /-- stateless operations: one line per op -/
@@ -58,6 +59,10 @@ def statefulOps : List (String × (DrvState → Json → J (DrvState × Json))) 
   ("dec-data-flat", opDecDataFlat) ::
   ("col-parse", opColParse) ::
   ("wf-bitmap", opWfBitmap) ::
+  ("wire", opWire) ::
+  ("nested-json", opNestedJson) ::
+  ("to-flat", opToFlat) ::
+  ("views", opViews) ::
   []
 
 def dispatch (st : DrvState) (j : Json) : J (DrvState × Json) := do
